@@ -54,7 +54,7 @@ def entries_close(observed, expected, scale, ulps=4):
         if len(o) != len(e):
             return "entry %d has arity %d, expected %d" % (i, len(o), len(e))
         if o[-1] != e[-1]:
-            return "entry %d label %r, expected %r" % (i, o[-1], e[-1])
+            return "entry %d label %s, expected %s" % (i, ascii(o[-1]), ascii(e[-1]))
         for j in range(len(e) - 1):
             if not num_close(o[j], e[j], scale, ulps):
                 return "entry %d field %d is %r, expected %s" % (i, j, o[j], fmt(e[j]))
